@@ -1,7 +1,10 @@
 // vextract — tie A: regenerates Lean *data* files from the broker's source (DESIGN.md §2.3).
 //
-//	vextract -repo /repo -out lean/Mochi/Gen     writes Gen/LockGraph.lean and Gen/RootLock.lean
+//	vextract -repo /repo -out lean/Mochi/Gen     writes Gen/LockGraph.lean, RootLock.lean, Access.lean, AccessKnown.lean
 //	vextract -repo /repo -report [-json]         prints the re-entrant / unordered acquisitions it finds
+//	vextract -repo /repo -racereport [-json] [-known known-findings.txt]
+//	                                             prints the unsynchronised conflicting access pairs (C33)
+//	vextract -repo /repo -accessdump             prints the access table (Gen/Access.lean, readable)
 //
 // The production build is analysed (no build tag: `//go:build verif` files are excluded, `!verif`
 // included), every package of the module except examples/ and cmd/, never *_test.go.
@@ -64,7 +67,10 @@ func main() {
 	repo := flag.String("repo", "/repo", "module root to analyse")
 	out := flag.String("out", "", "directory for the generated Lean files")
 	report := flag.Bool("report", false, "print the offending acquisitions instead of writing files")
-	asJSON := flag.Bool("json", false, "with -report: one JSON object per line")
+	asJSON := flag.Bool("json", false, "with -report / -racereport: one JSON object per line")
+	raceReport := flag.Bool("racereport", false, "print the unsynchronised conflicting access pairs (C33) instead of writing files")
+	accessDump := flag.Bool("accessdump", false, "print the whole access table")
+	knownPath := flag.String("known", "", "known-findings.txt (C33 signatures become Gen/AccessKnown.lean)")
 	flag.Parse()
 	x, err := load(*repo)
 	if err != nil {
@@ -72,6 +78,18 @@ func main() {
 		os.Exit(2)
 	}
 	x.translateAll()
+	known, badKnown := parseKnown(*knownPath)
+	if *raceReport || *accessDump {
+		a := x.accessTable()
+		if *accessDump {
+			a.dump(os.Stdout)
+			return
+		}
+		if a.raceReport(os.Stdout, known, *asJSON) > 0 {
+			os.Exit(1)
+		}
+		return
+	}
 	g := x.graph()
 	if *report {
 		n := g.report(os.Stdout, *asJSON)
@@ -85,12 +103,14 @@ func main() {
 		os.Exit(2)
 	}
 	changed := 0
-	for name, content := range map[string]string{"LockGraph.lean": g.lean(), "RootLock.lean": x.rootLockLean()} {
+	a := x.accessTable()
+	for name, content := range map[string]string{"LockGraph.lean": g.lean(), "RootLock.lean": x.rootLockLean(),
+		"Access.lean": a.lean(), "AccessKnown.lean": a.knownLean(known, badKnown)} {
 		if writeIfChanged(filepath.Join(*out, name), content) {
 			changed++
 		}
 	}
-	fmt.Printf("vextract: %d lock functions, %d lock classes, %d file(s) rewritten\n", len(g.funcs), len(g.classes), changed)
+	fmt.Printf("vextract: %d lock functions, %d lock classes, %d access rows, %d file(s) rewritten\n", len(g.funcs), len(g.classes), len(a.rows), changed)
 }
 
 func writeIfChanged(path, content string) bool {
